@@ -204,6 +204,35 @@ func genScript(idx int, book *nonceBook) script {
 		for i := 0; i < 4+r.Intn(3); i++ {
 			acts = append(acts, retryableFault(r, p))
 		}
+	case k < 87 && k >= 84:
+		// an answer that fits the schema badly (but carries a passing text), then answers that
+		// carry nothing at all: whatever a client keeps from the first must not decide the audit
+		s.Category = "malformed-then-empty"
+		tm := good()
+		tm.Transport, tm.Variant = "typemismatch", r.Intn(1<<20)
+		if p != "openai" {
+			// the genai SDK (v1.43.0) panics in its own response converter on a candidates
+			// list with a non-object member: the process dies with a non-zero status, which is
+			// not a pass; the in-process monitor cannot survive it, so the Gemini scripts open
+			// with another fault
+			tm = anyFault(r, p)
+		}
+		empty := func() Action {
+			e := good()
+			e.Transport, e.Variant = "emptyitems", 4*r.Intn(1<<10)+[]int{1, 1, 3, 0, 2}[r.Intn(5)]
+			return e
+		}
+		if r.Intn(2) == 0 {
+			acts = []Action{good(), tm}
+		} else {
+			acts = []Action{tm}
+		}
+		for i, n := 0, 1+r.Intn(5); i < n; i++ {
+			acts = append(acts, empty())
+		}
+		for len(acts) < scriptLen {
+			acts = append(acts, empty())
+		}
 	case k < 84:
 		s.Category = "big-body"
 		a := good()
